@@ -1,8 +1,7 @@
 (** C04 - canonical form: equal contents always produce the identical root.
     Statements only; proofs are in Inv.v / Hist.v / Build.v. *)
 From Coq Require Import List NArith ZArith Bool.
-From Mast Require Import Reload WorldInv Prim Key Tree KeyOrder Codec Store Diff World Erase Build Spec Canon Level Inv Hist.
-From Mast Require Import ReloadB.
+From Mast Require Import Reload WorldInv Prim Key Tree KeyOrder Codec Store Diff World Erase Build Spec Canon Level Inv Hist Merkle MerkleHist.
 Import ListNotations.
 
 Section GENERIC.
@@ -40,10 +39,7 @@ End GENERIC.
 (** Any two supported histories (inserts, updates, deletes down to any size, clones, persists, in any
     order, in any worlds) that end in the same entry list yield trees of the same height, size and
     shape (equality of keys, values and structure, hence of encodings).
-    PARTIAL: (1) equality of the root NAME is shown only up to residency annotations here; that equal
-    erased trees are stored under equal names follows from C08 (names are a function of entries and child
-    names) and is checked on every run by the correspondence check and the canonical-root oracle;
-    (2) reload points are not among the supported operations of this theorem yet. *)
+    (Persist-free worlds; the theorems below add persists, reloads and the root name.) *)
 Theorem C04_canonical_partial : forall ops1 ops2 t1 t2 tr1 tr2 bf l,
   forallb supported ops1 = true -> forallb supported ops2 = true ->
   aget (w_trees (wrun empty_world ops1)) t1 = Some tr1 -> aget (awrun [] ops1) t1 = Some (bf, l) ->
@@ -67,6 +63,48 @@ Theorem C04_canonical : forall ops1 ops2 t1 t2 tr1 tr2 x1 x2,
                 erase_n _ _ n1 = erase_n _ _ n2.
 Proof. exact same_entries_same_tree2. Qed.
 
+(** "Equal contents always produce the identical root", the name included.  The Merkle name of a
+    tree ([mname]) is a function of its keys, values and shape only; in a content-addressed store every
+    stored node is held under its Merkle name, and a persist returns it.  Hence: two trees with the same
+    entries and branch factor - of whatever residency, in whatever (content-addressed) stores - persist
+    to the identical Root record: link name, size, height, branch factor, node format. *)
+Theorem C04_name_depends_on_contents_only : forall f (a b : knode), erase_n _ _ a = erase_n _ _ b -> mname f a = mname f b.
+Proof. exact same_shape_same_name. Qed.
+Theorem C04_identical_root : forall f s1 s2 kind1 kind2 bf (m1 m2 : kmast) l t1 t2 rt1 rt2 m1' m2',
+  addressed s1 -> addressed s2 -> kcanon bf m1 l -> kcanon bf m2 l ->
+  root_allh f s1 kind1 m1 -> root_allh f s2 kind2 m2 ->
+  make_root f m1 = (t1, Ok (rt1, m1')) -> make_root f m2 = (t2, Ok (rt2, m2')) -> rt1 = rt2.
+Proof. exact same_contents_same_root. Qed.
+
+(** ... and every store of every reachable world is content-addressed (every write of a persist is
+    under the name of its bytes, whatever its outcome), so for ANY two histories (side conditions
+    [conds]) and any two of their trees with equal entries, branch factor and node format, MakeRoot
+    returns the identical Root *)
+Theorem C04_reachable_stores_content_addressed : forall ops, conds empty_world ([], []) ops -> waddr (wrun empty_world ops).
+Proof. intros ops C. exact (wrun_waddr ops empty_world (conds_no_corrupt _ _ _ C) waddr_empty). Qed.
+Theorem C04_identical_root_in_histories : forall ops1 ops2 t1 t2 tr1 tr2 x1 x2 ta rta ma tb rtb mb,
+  conds empty_world ([], []) ops1 -> conds empty_world ([], []) ops2 ->
+  aget (w_trees (wrun empty_world ops1)) t1 = Some tr1 -> aget (fst (awrun2 ([], []) ops1)) t1 = Some x1 ->
+  aget (w_trees (wrun empty_world ops2)) t2 = Some tr2 -> aget (fst (awrun2 ([], []) ops2)) t2 = Some x2 ->
+  at_bf x1 = at_bf x2 -> at_l x1 = at_l x2 -> at_fmt x1 = at_fmt x2 ->
+  make_root (c_fmt (t_cfg tr1)) (t_m tr1) = (ta, Ok (rta, ma)) ->
+  make_root (c_fmt (t_cfg tr2)) (t_m tr2) = (tb, Ok (rtb, mb)) -> rta = rtb.
+Proof. exact same_entries_same_root. Qed.
+
+(** non-vacuity: two routes to the same three entries - one direct, one through a persist, a reload
+    into a second tree, an insert and a delete - satisfy the side conditions and end in trees with equal
+    abstract contents; the theorem then says their Roots are identical (and the model computes so) *)
+Definition ex_route1 : list op := [ONew 0 0 2 None 1; OIns 0 (KUint 1) [49]; OIns 0 (KUint 2) [50]; OIns 0 (KUint 4) [51]]%N.
+Definition ex_route2 : list op :=
+  [ONew 0 5 2 None 1; OIns 0 (KUint 4) [51]; OIns 0 (KUint 8) [52]; OIns 0 (KUint 2) [50]; OMakeRoot 0 0; OLoad 0 1 5 1;
+   OIns 1 (KUint 1) [49]; ODel 1 (KUint 8) [52]]%N.
+Example C04_example_identical_root :
+  conds empty_world ([], []) ex_route1 /\ conds empty_world ([], []) ex_route2 /\
+  option_map at_l (aget (fst (awrun2 ([], []) ex_route1)) 0%N) = option_map at_l (aget (fst (awrun2 ([], []) ex_route2)) 1%N) /\
+  fst (last (run (wrun empty_world ex_route1) [OMakeRoot 0 9]%N) (ObOk, [])) =
+  fst (last (run (wrun empty_world ex_route2) [OMakeRoot 1 9]%N) (ObOk, [])).
+Proof. split; [apply condsb_ok; vm_compute; reflexivity|]. split; [apply condsb_ok; vm_compute; reflexivity|]. vm_compute. split; reflexivity. Qed.
+
 (** non-vacuity and the repaired defects: the shrink threshold of the pinned code (D8: size < bf^h
     instead of size <= bf^h) violates the height rule on a concrete history *)
 Local Open Scope N_scope.
@@ -86,3 +124,7 @@ Print Assumptions C04_height_unique.
 Print Assumptions C04_unique.
 Print Assumptions C04_canonical_partial.
 Print Assumptions C04_canonical.
+Print Assumptions C04_name_depends_on_contents_only.
+Print Assumptions C04_identical_root.
+Print Assumptions C04_reachable_stores_content_addressed.
+Print Assumptions C04_identical_root_in_histories.
